@@ -238,7 +238,7 @@ func ParseContracts(pkgPath, path, src string) (*ContractFile, error) {
 					return nil, errf("bad func header %q", hdr)
 				}
 				k := j + 2
-				for k < len(hdr) && (isIdent(hdr[k]) || hdr[k] == '$') {
+				for k < len(hdr) && (isIdent(hdr[k]) || hdr[k] == '$' || hdr[k] == '!') {
 					k++
 				}
 				nameEnd = k
